@@ -108,6 +108,11 @@ const PLANTS: &[(&str, u8, bool)] = &[
     ("arr [ 0 ] = - arr [ 0 ]", 14, false),
     ("arr [ 0 ] = arr [ 0 ] ** 2", 14, false),
     ("arr [ 0 ] = 1 + arr [ 0 ]", 14, true),
+    // literal subscripts that do not fit 64 bits: equal ones are a self-update, different ones are not
+    ("arr [ 18446744073709551616 ] = arr [ 18446744073709551616 ] + a", 14, false),
+    ("arr [ 18446744073709551616 ] = arr [ 18446744073709551617 ] + a", 14, false),
+    ("arr [ 36893488147419103232 ] = arr [ 18446744073709551616 ] * 2", 14, false),
+    ("arr [ 340282366920938463463374607431768211456 ] = arr [ 340282366920938463463374607431768211457 ] - 1", 14, false),
     ("arr [ i ] = arr [ i ] + 1", 14, true),
     ("arr [ 0 ] = m [ 1 ] [ 2 ] + arr [ 0 ]", 14, true),
     ("arr [ 2 ] = f ( a ) [ 0 ] * arr [ 2 ]", 14, true),
@@ -864,7 +869,12 @@ impl<'t, 'd> Gen<'t, 'd> {
         self.locals.clear();
         self.n_fn += 1;
         self.w("function");
-        self.w(&format!("g{}", self.n_fn));
+        if self.t.chance(30) {
+            // a free function that carries the name of a built-in the detectors key on
+            self.wp(&["selfdestruct", "suicide", "keccak256", "add", "transfer", "approve"]);
+        } else {
+            self.w(&format!("g{}", self.n_fn));
+        }
         self.param_list(true);
         if self.t.chance(60) {
             self.wp(&["pure", "view"]);
@@ -887,7 +897,8 @@ impl<'t, 'd> Gen<'t, 'd> {
             self.w("{");
             let vars = self.state_vars.clone();
             for v in vars {
-                if self.t.chance(130) {
+                let reps = if self.t.chance(130) { if self.t.chance(60) { 2 } else { 1 } } else { 0 };
+                for _ in 0..reps {
                     self.nl();
                     self.w(&v);
                     self.wp(&["=", "=", "=", "=", "+=", "|="]);
@@ -953,7 +964,11 @@ impl<'t, 'd> Gen<'t, 'd> {
     fn fallback(&mut self) {
         self.params.clear();
         self.locals.clear();
-        if self.t.chance(128) {
+        if self.t.chance(40) {
+            // the pre-0.6 unnamed fallback: a function definition of kind `function` without a name
+            self.w("function ( )");
+            self.wp(&["external", "external payable", "public", "payable external", ""]);
+        } else if self.t.chance(128) {
             self.w("fallback ( ) external");
             if self.t.chance(100) {
                 self.w("payable");
@@ -1018,8 +1033,13 @@ impl<'t, 'd> Gen<'t, 'd> {
             13 => self.wp(&["IERC20", "S1", "Lib . T", "E1"]),
             14 => self.w("address payable"),
             _ => {
-                let t = self.elem_type();
-                self.w(&t);
+                if self.cfg.undecided && self.t.chance(90) {
+                    // expressions the grammar accepts in a type position although they are no types
+                    self.wp(&["( uint256 )", "uint8 [ 1 : 2 ]", "f ( )", "a . b", "arr [ 0 ]", "( uint8 , uint8 )", "uint256 ( 1 )", "( ( bool ) )"]);
+                } else {
+                    let t = self.elem_type();
+                    self.w(&t);
+                }
             }
         }
     }
@@ -1082,7 +1102,27 @@ impl<'t, 'd> Gen<'t, 'd> {
     }
 
     fn lvalue(&mut self, depth: u32) {
-        match self.t.below(8) {
+        match self.t.below(10) {
+            8 => {
+                // tuple and parenthesised targets: plain, with holes, nested, mixed with declarations, indexed components
+                let a = self.name();
+                let b = self.name();
+                let c = self.name();
+                self.n_local += 1;
+                let fresh = format!("l{}", self.n_local);
+                match self.t.below(10) {
+                    0 => self.w(&format!("( {a} , {b} )")),
+                    1 => self.w(&format!("( , {a} , )")),
+                    2 => self.w(&format!("( ( {a} , {b} ) , {c} )")),
+                    3 => self.w(&format!("( ( {a} ) , )")),
+                    4 => self.w(&format!("( uint256 {fresh} , {a} )")),
+                    5 => self.w(&format!("( bool {fresh} , {a} )")),
+                    6 => self.w(&format!("( {a} , uint256 {fresh} , {b} )")),
+                    7 => self.w(&format!("( ( {a} [ 0 ] , ) , )")),
+                    8 => self.w(&format!("( {a} )")),
+                    _ => self.w(&format!("( ( ( {a} ) ) , ( , {b} ) )")),
+                }
+            }
             0..=4 => {
                 let n = self.name();
                 self.w(&n);
